@@ -351,6 +351,29 @@ Col(name, arr, j) ==
          [] OTHER -> UNSPEC
 
 (***************************************************************************)
+(* pairwise element indexing (extension)                                   *)
+(***************************************************************************)
+PairPos(arr, rows, cols) ==        \* 1-based <<row, col>> of every pair, <<0, 0>> where the pair does not exist
+  [k \in DOMAIN rows |-> LET r == NormInt(NRows(arr), rows[k]) IN
+                          IF r < 0 THEN <<0, 0>> ELSE LET c == NormInt(Len(Rows(arr)[r + 1]), cols[k]) IN IF c < 0 THEN <<0, 0>> ELSE <<r + 1, c + 1>>]
+PairsGet(arr, rows, cols) ==
+  IF rows = <<>> \/ Len(rows) # Len(cols) THEN UNSPEC
+  ELSE LET pos == PairPos(arr, rows, cols) IN
+       IF \E k \in DOMAIN pos : pos[k] = <<0, 0>> THEN REFUSED
+       ELSE <<"flat", DT(arr), [k \in DOMAIN pos |-> Rows(arr)[pos[k][1]][pos[k][2]]]>>
+\* val: <<"scalar", v>> | <<"flat", seq>> (one value per pair); pairs addressing the same cell twice are outside the claim
+PairsSet(arr, rows, cols, val) ==
+  IF rows = <<>> \/ Len(rows) # Len(cols) THEN UNSPEC
+  ELSE LET pos == PairPos(arr, rows, cols) IN
+       IF \E k \in DOMAIN pos : pos[k] = <<0, 0>> THEN REFUSED
+       ELSE IF \E j, k \in DOMAIN pos : j # k /\ pos[j] = pos[k] THEN UNSPEC
+       ELSE IF Tag(val) = "flat" /\ Len(val[2]) # Len(rows) THEN UNSPEC
+       ELSE <<"array", DT(arr), [r \in DOMAIN Rows(arr) |-> [c \in DOMAIN Rows(arr)[r] |->
+                 IF \E k \in DOMAIN pos : pos[k] = <<r, c>>
+                 THEN (LET k == CHOOSE k \in DOMAIN pos : pos[k] = <<r, c>> IN IF Tag(val) = "scalar" THEN val[2] ELSE val[2][k])
+                 ELSE Rows(arr)[r][c]]]>>
+
+(***************************************************************************)
 (* dispatcher                                                              *)
 (***************************************************************************)
 \* 32/64-bit unsigned results that went below zero wrapped to values outside the modelled integer range: no verdict
@@ -378,6 +401,10 @@ Expect(c) ==
     [] op = "subset" -> Subset(c[2], c[3])
     [] op = "ragged_slice" -> RaggedSlice(c[2], c[3], c[4])
     [] op = "col" -> Col(c[2], c[3], c[4])
+    \* pairwise element indexing ra[rows, cols] with two equally long integer sequences (beyond the index grammar of C02 / C03: part of
+    \* the library's behaviour, specified the numpy way): the k-th result is the cell (rows[k], cols[k]); any pair that does not exist is refused
+    [] op = "getpairs" -> PairsGet(c[2], c[3], c[4])
+    [] op = "setpairs" -> PairsSet(c[2], c[3], c[4], c[5])
     \* 64-bit row totals / running totals of an array whose values are 16-bit limbs: exact modulo 2^64 (NpVal!WideSum)
     [] op = "wreduce" -> IF DT(c[3]) \notin {"i8", "u8"} THEN UNSPEC
                          ELSE IF c[2] \in {"sum", "cumsum", "total"} /\ (~WideFits(FlatOf(c[3]), DT(c[3]))
